@@ -15,6 +15,7 @@ type PrimCall struct {
 	Kind   string // ecdsa.sign, ecdsa.verify, rsa.sign, rsa.verify, ed.sign, ed.verify, hash
 	Key    string
 	Hash   *Term
+	DataID *Term
 	Data   string // structural key of digest / message
 	DataRope Rope
 	Sig    string
@@ -607,7 +608,11 @@ func (e *Engine) callStub(name string, recv Value, args []Value) Value {
 		if b.mag.isConst() {
 			return e.bytesFromRope(ropeLit(b.mag.val.Bytes()))
 		}
-		return e.bytesFromRope(Rope{SegIntBE{b.mag, n}})
+		x := b.mag
+		for x.op == "zext" {
+			x = x.args[0] // same value; keeps IntBE(x, bytelen(x)) recognisable
+		}
+		return e.bytesFromRope(Rope{SegIntBE{x, n}})
 	case "(*math/big.Int).BitLen":
 		b, _ := e.bigOf(args[0])
 		if b.bl != nil {
@@ -703,10 +708,10 @@ func (e *Engine) callStub(name string, recv Value, args []Value) Value {
 		rFit, rm := e.fit528(r.mag)
 		sFit, sm := e.fit528(s.mag)
 		inRange := tt.And(rFit, sFit, tt.Not(r.neg), tt.Not(s.neg), tt.Ne(rm, tt.BVu(0, 528)), tt.Ne(sm, tt.BVu(0, 528)), tt.Cmp("bvult", rm, N), tt.Cmp("bvult", sm, N))
-		uf := tt.UF("V_ecdsa", 0, e.intern("key", keyID), e.intern("dig", e.ropeKey(dig)), rm, sm)
+		uf := tt.UF("V_ecdsa", 0, e.intern("key", keyID), e.canonID(dig), rm, sm)
 		// correctness axiom made explicit for recorded signatures (helps the solver: no reliance on UF congruence over wide vectors)
 		for _, rec := range e.signedLog {
-			if rec.Kind == "ecdsa.sign" && rec.Key == keyID && rec.Data == e.ropeKey(dig) {
+			if rec.Kind == "ecdsa.sign" && rec.Key == keyID && rec.DataID == e.canonID(dig) {
 				uf = tt.Or(tt.And(tt.Eq(rm, rec.R), tt.Eq(sm, rec.S)), uf)
 			}
 		}
@@ -746,7 +751,7 @@ func (e *Engine) callStub(name string, recv Value, args []Value) Value {
 		arr := tt.Var(fmt.Sprintf("rsasig%d", e.hashCount), sortArray)
 		n := e.rsaSize(e.load(priv).(*StructV).fields[0].(*StructV))
 		sig := Rope{SegBlob{arr, e.c64(0), n}}
-		e.assume(tt.UF("V_rsa", 0, e.intern("key", keyID), hashT, salt, e.intern("dig", e.ropeKey(dig)), e.intern("sig", e.ropeKey(sig))))
+		e.assume(tt.UF("V_rsa", 0, e.intern("key", keyID), hashT, salt, e.canonID(dig), e.canonID(sig)))
 		e.signedLog = append(e.signedLog, &PrimCall{Kind: "rsa.sign", Key: keyID, Hash: hashT, Salt: salt, Data: e.ropeKey(dig), DataRope: dig, Sig: e.ropeKey(sig)})
 		return TupleV{e.bytesFromRope(sig), Iface{}}
 	case "crypto/rsa.VerifyPSS":
@@ -759,7 +764,7 @@ func (e *Engine) callStub(name string, recv Value, args []Value) Value {
 			salt = e.load(p).(*StructV).fields[0].(*Term)
 		}
 		keyID := e.rsaPubID(pub)
-		v := tt.UF("V_rsa", 0, e.intern("key", keyID), hashT, salt, e.intern("dig", e.ropeKey(dig)), e.intern("sig", e.ropeKey(sig)))
+		v := tt.UF("V_rsa", 0, e.intern("key", keyID), hashT, salt, e.canonID(dig), e.canonID(sig))
 		e.primLog = append(e.primLog, &PrimCall{Kind: "rsa.verify", Key: keyID, Hash: hashT, Salt: salt, Data: e.ropeKey(dig), DataRope: dig, Sig: e.ropeKey(sig), Result: v})
 		if e.branch(v) {
 			return Iface{}
@@ -786,7 +791,7 @@ func (e *Engine) callStub(name string, recv Value, args []Value) Value {
 		arr := tt.Var(fmt.Sprintf("edsig%d", e.hashCount), sortArray)
 		sig := Rope{SegBlob{arr, e.c64(0), e.c64(64)}}
 		keyID := "ed:" + e.ropeKey(pubRope)
-		e.assume(tt.UF("V_ed", 0, e.intern("key", keyID), e.intern("msg", e.ropeKey(msg)), e.intern("sig", e.ropeKey(sig))))
+		e.assume(tt.UF("V_ed", 0, e.intern("key", keyID), e.canonID(msg), e.canonID(sig)))
 		e.signedLog = append(e.signedLog, &PrimCall{Kind: "ed.sign", Key: keyID, Data: e.ropeKey(msg), DataRope: msg, Sig: e.ropeKey(sig)})
 		return TupleV{e.bytesFromRope(sig), Iface{}}
 	case "crypto/ed25519.Verify":
@@ -798,7 +803,7 @@ func (e *Engine) callStub(name string, recv Value, args []Value) Value {
 		sigB := args[2].(BytesV)
 		sig := e.bytesRope(sigB)
 		keyID := "ed:" + e.ropeKey(e.bytesRope(pub))
-		v := tt.And(tt.Eq(sigB.n, e.c64(64)), tt.UF("V_ed", 0, e.intern("key", keyID), e.intern("msg", e.ropeKey(msg)), e.intern("sig", e.ropeKey(sig))))
+		v := tt.And(tt.Eq(sigB.n, e.c64(64)), tt.UF("V_ed", 0, e.intern("key", keyID), e.canonID(msg), e.canonID(sig)))
 		e.primLog = append(e.primLog, &PrimCall{Kind: "ed.verify", Key: keyID, Data: e.ropeKey(msg), DataRope: msg, Sig: e.ropeKey(sig), Result: v})
 		return v
 	case "crypto/ed25519.NewKeyFromSeed":
@@ -907,12 +912,39 @@ func (e *Engine) envVar(name string, w int) *Term {
 	return t
 }
 
+type canonEntry struct {
+	rope Rope
+	key  string
+	id   *Term
+}
+
+// canonID gives byte strings an identity such that ropes the solver proves
+// equal (under the current path condition) share it. New identities are
+// numbered in order of appearance (deterministic under re-execution).
+func (e *Engine) canonID(r Rope) *Term {
+	key := e.ropeKey(r)
+	for _, c := range e.canon {
+		if c.key == key {
+			return c.id
+		}
+	}
+	for _, c := range e.canon {
+		eq := e.ropeEq(c.rope, r)
+		if eq.isTrue() || (!eq.isFalse() && e.mustBe(eq)) {
+			e.canon = append(e.canon, canonEntry{r, key, c.id})
+			return c.id
+		}
+	}
+	id := e.c64(uint64(0xC0DE0000 + len(e.canon)))
+	e.canon = append(e.canon, canonEntry{r, key, id})
+	return id
+}
+
 func (e *Engine) hashOf(h *Term, data Rope) Rope {
-	key := fmt.Sprintf("%d|%s", h.id, e.ropeKey(data))
-	id := e.intern("hash", key).u64()
-	arr := e.tt.Var(fmt.Sprintf("H_%x", id), sortArray)
 	k, _ := e.concretizeAmong(h, []uint64{5, 6, 7})
 	size := map[uint64]uint64{5: 32, 6: 48, 7: 64}[k]
+	id := e.canonID(data)
+	arr := e.tt.Var(fmt.Sprintf("H%d_%x", k, id.u64()), sortArray)
 	e.primLog = append(e.primLog, &PrimCall{Kind: "hash", Hash: h, Data: e.ropeKey(data), DataRope: data})
 	return Rope{SegBlob{arr, e.c64(0), e.c64(size)}}
 }
@@ -947,15 +979,19 @@ func (e *Engine) ecdsaSignOK(priv PtrV, digest BytesV) (PtrV, PtrV, Iface) {
 	pk := e.load(priv).(*StructV)
 	pub := pk.fields[0].(*StructV)
 	cn := curveNameOf(pub.fields[0])
-	N := tt.BV(realCurve(cn).Params().N, 528)
-	r := e.envVar("ecdsa.r", 528)
-	s := e.envVar("ecdsa.s", 528)
-	zero := tt.BVu(0, 528)
-	e.addPC(tt.And(tt.Ne(r, zero), tt.Ne(s, zero), tt.Cmp("bvult", r, N), tt.Cmp("bvult", s, N)))
+	// (r, s) live in the curve's own width (zero-extended to the common 528 bits): keeps the
+	// leading-zero reasoning of the fixed-width encoding syntactic for the solver
+	w := map[string]int{"P-256": 256, "P-384": 384, "P-521": 528, "P-224": 224}[cn]
+	Nw := tt.BV(realCurve(cn).Params().N, w)
+	rw := e.envVar("ecdsa.r", w)
+	sw := e.envVar("ecdsa.s", w)
+	zw := tt.BVu(0, w)
+	e.addPC(tt.And(tt.Ne(rw, zw), tt.Ne(sw, zw), tt.Cmp("bvult", rw, Nw), tt.Cmp("bvult", sw, Nw)))
+	r, s := tt.ZExt(rw, 528), tt.ZExt(sw, 528)
 	dig := e.bytesRope(digest)
 	keyID := e.ecPubID(pub)
-	e.addPC(tt.UF("V_ecdsa", 0, e.intern("key", keyID), e.intern("dig", e.ropeKey(dig)), r, s))
-	e.signedLog = append(e.signedLog, &PrimCall{Kind: "ecdsa.sign", Key: keyID, Data: e.ropeKey(dig), DataRope: dig, R: r, S: s})
+	e.addPC(tt.UF("V_ecdsa", 0, e.intern("key", keyID), e.canonID(dig), r, s))
+	e.signedLog = append(e.signedLog, &PrimCall{Kind: "ecdsa.sign", Key: keyID, DataID: e.canonID(dig), Data: e.ropeKey(dig), DataRope: dig, R: r, S: s})
 	return e.newBig(r, tt.Bool(false)), e.newBig(s, tt.Bool(false)), Iface{}
 }
 
